@@ -53,6 +53,7 @@ import (
 	"google.golang.org/protobuf/encoding/protowire"
 
 	fxante "github.com/functionx/fx-core/v8/ante"
+	fxapp "github.com/functionx/fx-core/v8/app"
 	"github.com/functionx/fx-core/v8/contract"
 	"github.com/functionx/fx-core/v8/testutil/helpers"
 	fxtypes "github.com/functionx/fx-core/v8/types"
@@ -257,6 +258,9 @@ var payloads = []struct {
 	{"hex-odd", []byte("abc")}, {"0x", []byte("0x")}, {"space", []byte("  ")}, {"nul", []byte{0}},
 	{"bech32-junk", []byte("fx1qqqqqqqqqqqqqqqqqqqqqqqqqqqqqqqqqqqqqq")}, {"eth-lower", []byte("0x" + strings.Repeat("ab", 20))},
 	{"eth-zero", []byte("0x0000000000000000000000000000000000000000")},
+	// well-formed hex of boundary lengths (signatures are 65 bytes, hashes 32, addresses 20)
+	{"hex-1B", []byte("00")}, {"hex-2B", []byte("abcd")}, {"hex-20B", []byte(strings.Repeat("ab", 20))}, {"hex-32B", []byte(strings.Repeat("ab", 32))},
+	{"hex-64B", []byte(strings.Repeat("1b", 64))}, {"hex-65B", []byte(strings.Repeat("1b", 65))}, {"hex-66B", []byte(strings.Repeat("1b", 66))},
 }
 
 // mutations of a wire message, recursively into length-delimited fields that parse as messages
@@ -1100,7 +1104,10 @@ func (e *env) buildTx(c feeCase, signer *helpers.Signer, sign bool, ctx sdk.Cont
 }
 
 func (e *env) anteHandler(exempt []string, maxB uint64) sdk.AnteHandler {
-	app := e.s.App
+	return anteHandlerFor(e.s.App, exempt, maxB)
+}
+
+func anteHandlerFor(app *fxapp.App, exempt []string, maxB uint64) sdk.AnteHandler {
 	opts := fxante.HandlerOptions{
 		AccountKeeper: app.AccountKeeper, BankKeeper: app.BankKeeper, EvmKeeper: app.EvmKeeper, FeeMarketKeeper: app.FeeMarketKeeper,
 		IbcKeeper: app.IBCKeeper, GovKeeper: app.GovKeeper, SignModeHandler: app.GetTxConfig().SignModeHandler(),
@@ -1239,8 +1246,10 @@ func (e *env) hostileAnte() {
 				e.violate("ante-panic "+class, "the ante handler panicked on input class ["+class+"]: "+res, []string{"# ante " + class})
 			}
 			if strings.Contains(res, "panic") || strings.Contains(res, "runtime error") {
+				// a panic that the deferred Recover of NewAnteHandler turned into ErrPanic is still a panic of the ante handler
 				e.out.Count("hostile-ante-recovered-panic")
 				e.out.Stats.Extra["recovered: "+class] = errKind(res)
+				e.violate("ante-recovered-panic "+class, "the ante handler answered input class ["+class+"] with a recovered panic (ErrPanic): "+res, []string{"# ante " + class})
 			}
 		}
 	}
@@ -1354,6 +1363,8 @@ func TestC20(t *testing.T) {
 	e.decoderSweep()
 	e.feeSweep()
 	e.hostileAnte()
+	e.anteRawSweep(t)
+	e.nodeConfigSweep(t)
 	out.Stats.Extra["violation_counts"] = e.seenV
 	if len(e.dep) > 0 {
 		out.Stats.Extra["dependency_type_panics (SDK/IBC/ethermint message code, outside fx-core)"] = e.dep
